@@ -146,16 +146,23 @@ def _work(item):
 
 
 _CASES = {}
-KINDS = ["blank", "ws", "comment", "label", "directive", "instr", "instr+comment"]
+KINDS = ["blank", "ws", "comment", "label", "directive", "instr", "instr+comment",
+         # ';' is no statement separator for OSACA: inside comments (both comment styles of the
+         # x86 grammar) and inside a quoted directive string the line stays one line
+         "comment;", "instr+comment;", "directive-str"]
 
 
 def line_of_kind(isa, kind, k):
     c = "#" if isa == "x86" else "//"
     ins = "addq $%d, %%rax" % k if isa == "x86" else "add x1, x1, #%d" % k
+    c2 = "//" if (isa != "x86" or k % 2 == 0) else "#"
     return {
         "blank": "", "ws": " \t ", "comment": "%s note %d" % (c, k), "label": ".L%d:" % k,
         "directive": ".align %d" % (2 ** (k % 4)), "instr": ins,
         "instr+comment": ins + " %s tail %d" % (c, k),
+        "comment;": "%s prologue %d; setup" % (c2, k),
+        "instr+comment;": ins + " %s accumulate %d; then advance" % (c2, k),
+        "directive-str": '.string "a;b%d"' % k,
     }[kind]
 
 
@@ -180,11 +187,12 @@ def _file_work(item):
         cls = [f.mnemonic is not None, f.label is not None, f.directive is not None,
                (f.comment is not None and f.mnemonic is None and f.label is None and
                 f.directive is None)]
-        want = {"instr": 0, "instr+comment": 0, "label": 1, "directive": 2, "comment": 3}[kd]
+        want = {"instr": 0, "instr+comment": 0, "label": 1, "directive": 2, "comment": 3,
+                "comment;": 3, "instr+comment;": 0, "directive-str": 2}[kd]
         if cls != [i == want for i in range(4)]:
             bad.append(("class", "line %r classified (instr,label,directive,comment)=%r, expected "
                         "%s" % (line, cls, kd)))
-        if kd == "instr+comment" and not f.comment:
+        if kd.startswith("instr+comment") and not f.comment:
             bad.append(("comment", "trailing comment of %r lost" % line))
     return item, bad
 
@@ -206,7 +214,7 @@ def run_isa(ctx, isa, prop):
                 {"kind": kind, "isa": isa,
                  "displacement_only_memory_operand": "mem-disp-only" in optypes},
                 "%r: %s" % (line, what), {"isa": isa, "line": line, "what": what}))
-    # files over the 7 line kinds
+    # files over the line kinds
     fitems = [(isa, t) for L in range(1, 5) for t in itertools.product(KINDS, repeat=L)]
     fout = core.pmap(_file_work, fitems)
     for (isa_, kinds), bad in fout:
@@ -230,7 +238,7 @@ def run_isa(ctx, isa, prop):
                 "after the mnemonic, four separator spacings, trailing blanks, trailing comment with/"
                 "without separating blank) and parsed by the real parser, every field compared; arity "
                 "0-1: every operand instance, arity 2: all ordered pairs of a reduced pool, arity 3+: "
-                "covering family; all files of <= 4 lines over 7 line kinds; non-trivial = >= 2 "
+                "covering family; all files of <= 4 lines over 10 line kinds (three of them with a semicolon inside a comment or a quoted string); non-trivial = >= 2 "
                 "operands / >= 2 lines")
     res.assumptions = ["operand grammar of the ISA as encoded in mc/ref/asm.py",
                        "the empty memory operand '()' is outside the domain"]
